@@ -299,8 +299,14 @@ def check_C06(tier, seed):
                   limits=(0, 1), rotate=True, classify=cl(c2), invariants=CORE_INV + ["InIsTransposeOfOut"])
     # (b) two datasets, all scopes, every past instant
     datahub_stage(v, sd, binary, "C06_multi", ds=["a", "b"], ent=["e1", "e2", "e3"], preds=("p", "q"),
-                  contents=rq, max_batch=1, max_steps=3, acts=("store", "tick", "txn") if thorough else ("store", "tick"),
+                  contents=rq, max_batch=1, max_steps=3, acts=("store", "tick"),
                   tables=tabs, kinds=kinds, limits=(0, 1), rotate=True, classify=cl(rq))
+    if thorough:
+        # transactions (one instant for two datasets); three steps with transactions do not finish (measured: TLC
+        # still generating after 25 min), two steps take about a minute
+        datahub_stage(v, sd, binary, "C06_txn", ds=["a", "b"], ent=["e1", "e2", "e3"], preds=("p", "q"),
+                      contents=rq, max_batch=1, max_steps=2, acts=("store", "tick", "txn"),
+                      tables=tabs, kinds=kinds, limits=(0, 1), rotate=True, classify=cl(rq))
     # (c) deep sampled histories
     datahub_stage(v, sd, binary, "C06_deep", ds=["a", "b"], ent=["e1", "e2", "e3"], preds=("p", "q"), contents=rc,
                   max_batch=2, max_steps=8 if thorough else 6, acts=("store", "txn", "tick"), tables=tabs,
